@@ -29,7 +29,89 @@ PROTOCOL_BUFFER = 256 * 1024  # StreamReaderBufferedProtocol.max_size: what the 
 MARGIN = 300  # requests handled beyond the bound before the verdict "does not get through" is given
 
 
+async def _client_main(case: dict) -> dict:
+    """the same question for a client-side consumer: `while True: await endpoint.recv_packet()` under a flooding peer, stopped
+    by task.cancel() or by a cancel scope around the loop"""
+    from easynetwork.lowlevel.api_async.backend._asyncio.stream.socket import AsyncioTransportStreamSocketAdapter, StreamReaderBufferedProtocol
+    from easynetwork.lowlevel.api_async.endpoints.stream import AsyncStreamEndpoint
+    from easynetwork.protocol import BufferedStreamProtocol, StreamProtocol
+    from easynetwork.serializers.line import StringLineSerializer
+
+    from ..fakeasyncio import FakeAsyncioTransport
+    from ..memtransports import VerifBackend
+
+    loop = asyncio.get_running_loop()
+    backend = VerifBackend()
+    f = case["frame"]
+    frame = b"x" * (f - 1) + b"\n"
+    res: dict[str, Any] = {"handled": 0, "ended": [], "fed": 0, "scope": None, "bad": 0}
+    serializer = StringLineSerializer()
+    proto: Any = BufferedStreamProtocol(serializer) if case["buffered"] else StreamProtocol(serializer)
+    aio_protocol = StreamReaderBufferedProtocol(loop=loop)
+    aio_transport = FakeAsyncioTransport(loop, aio_protocol, kernel_capacity=None, max_recv=case["max_recv"])
+    adapter = AsyncioTransportStreamSocketAdapter(backend, aio_transport, aio_protocol)
+    endpoint = AsyncStreamEndpoint(adapter, proto, max_recv_size=case["max_recv_size"])
+
+    async def consumer() -> None:
+        try:
+            with backend.open_cancel_scope() as scope:
+                res["scope"] = scope
+                while True:
+                    packet = await endpoint.recv_packet()
+                    res["handled"] += 1
+                    if len(packet) != f - 1:
+                        res["bad"] += 1
+            res["ended"].append("scope-left")
+        except BaseException as exc:  # noqa: BLE001
+            res["ended"].append(type(exc).__name__)
+            raise
+
+    stop_feeding = False
+
+    async def feeder() -> None:
+        chunk = frame * case["chunk_frames"]
+        while not stop_feeding:
+            if len(aio_transport.inbox) < len(chunk) and not aio_transport.is_closing():
+                aio_transport.feed(chunk)
+                res["fed"] += len(chunk)
+            await asyncio.sleep(0)
+
+    task = asyncio.create_task(consumer())
+    feed_task = asyncio.create_task(feeder())
+    while res["handled"] < case["warmup"]:
+        await asyncio.sleep(0)
+        if task.done():
+            raise HarnessError(f"consumer ended during warm-up: {task!r}")
+    for _ in range(case["extra_ticks"]):
+        await asyncio.sleep(0)
+    handled_at_call = res["handled"]
+    user_space = res["fed"] - len(aio_transport.inbox) - handled_at_call * f
+    bound = (user_space + PROTOCOL_BUFFER + 2 * max(case["max_recv_size"], 65536 if case["buffered"] else 0)) // f + 10
+    verdict: dict[str, Any] = {"handled_at_call": handled_at_call, "user_space": user_space, "bound": bound}
+    if case["op"] == "client-task-cancel":
+        task.cancel()
+    else:
+        res["scope"].cancel()
+    while not task.done():
+        if res["handled"] - handled_at_call > bound + MARGIN:
+            verdict["stuck"] = True
+            break
+        await asyncio.sleep(0)
+    verdict["handled_after"] = res["handled"] - handled_at_call
+    stop_feeding = True
+    await asyncio.gather(feed_task, return_exceptions=True)
+    if not task.done():
+        aio_transport.feed_eof()
+    await asyncio.gather(task, return_exceptions=True)
+    await endpoint.aclose()
+    verdict["ended"] = list(res["ended"])
+    verdict["bad"] = res["bad"]
+    return verdict
+
+
 async def _main(case: dict) -> dict:
+    if case["op"].startswith("client-"):
+        return await _client_main(case)
     from easynetwork.lowlevel.api_async.backend._asyncio.stream.socket import AsyncioTransportStreamSocketAdapter, StreamReaderBufferedProtocol
     from easynetwork.protocol import BufferedStreamProtocol, StreamProtocol
     from easynetwork.serializers.line import StringLineSerializer
@@ -166,6 +248,8 @@ def run(case: dict) -> Outcome:
             "shutdown": "server.shutdown() does not return",
             "cancel-serve": "the cancelled serve_forever() task does not end",
             "scope-cancel": "the cancelled scope around the handler's request loop is not left",
+            "client-task-cancel": "the cancelled task looping on endpoint.recv_packet() does not end",
+            "client-scope-cancel": "the cancelled scope around a recv_packet() loop is not left",
         }[case["op"]]
         raise Violation(
             "stop-request-starved",
@@ -176,20 +260,23 @@ def run(case: dict) -> Outcome:
         )
     classes = [f"op-{case['op']}", "buffered" if case["buffered"] else "copying", "echo" if case["echo"] else "silent"]
     classes.append("ended-" + (v["ended"][0] if v["ended"] else "none"))
-    return Outcome(nontrivial=v["user_space"] > 0, classes=tuple(classes), note=f"handled after the request: {v['handled_after']} (bound {v['bound']})")
+    ahead = v["user_space"] > 2 * case["max_recv_size"]
+    classes.append("peer-ahead" if ahead else "reader-keeps-up")
+    return Outcome(nontrivial=ahead, classes=tuple(classes), note=f"handled after the request: {v['handled_after']} (bound {v['bound']})")
 
 
 @st.composite
 def st_case(draw: st.DrawFn, tier: str) -> dict:
     frame = draw(st.sampled_from([64, 512, 4096]))
     return {
-        "op": draw(st.sampled_from(["shutdown", "shutdown", "cancel-serve", "scope-cancel"])),
+        "op": draw(st.sampled_from(["shutdown", "shutdown", "cancel-serve", "scope-cancel", "client-task-cancel", "client-scope-cancel"])),
         "buffered": draw(st.booleans()),
         "echo": draw(st.booleans()),
         "frame": frame,
         "chunk_frames": draw(st.sampled_from([1, 3, 16, 64])),
         "max_recv": draw(st.sampled_from([None, 4096, 1000, 100])),
-        "max_recv_size": draw(st.sampled_from([4096, 16384, 65536])),
+        # (small values: a client-side consumer has no per-request checkpoint, the peer only stays ahead of a slow reader)
+        "max_recv_size": draw(st.sampled_from([16, 256, 4096, 16384, 65536])),
         "warmup": draw(st.integers(1, 40)),
         "extra_ticks": draw(st.integers(0, 7)),
     }
